@@ -4,6 +4,8 @@ the model to /repo, and which observables are decisive (a disagreement there
 is itself a counterexample, because a theorem pins the model's value as the
 only correct one)."""
 
+import extras
+
 MODEL_FILES = ["Bytes.v", "Utf8.v", "Ast.v", "Fill.v", "Msg.v", "Api.v"]
 
 TRUSTED_BASE = [
@@ -61,6 +63,21 @@ PROPS = {
         suites=["C10"],
         decisive=[],
         assumptions=["C10_refines (imperative expander = declarative expander) is not proved yet; the imperative model is tied to the code by exhaustive small templates"],
+    ),
+    "C11": dict(
+        prop_file="props/C11.v", proof_files=["Heap.v"], tie_files=["EffectsTie.v"],
+        suites=["C11"],
+        decisive=[],
+        assumptions=["the heap model covers the byte slices and maps that cross the API; strings are immutable in Go",
+                     "the effect summary (gengo/effects.go) is a syntactic analysis, trusted for the recognised forms"],
+        rule="histories of 6-50 API calls over a growing pool (factories, shared children, producers, fills, both directions of the HSMS codec, control messages) with every argument slice/map and every returned slice scribbled over after each call; monitor: every object observed at creation = observed at the end",
+    ),
+    "C17": dict(
+        prop_file="props/C17.v", proof_files=["Conc.v"], tie_files=["EffectsTie.v"],
+        suites=[],
+        decisive=[],
+        extra=extras.race_stage,
+        assumptions=["partial by nature: the Go memory model, scheduler, race detector's happens-before view and the thread safety of regexp/fmt/sort/strconv are outside the model; the -race driver is the observation for them"],
     ),
     "C12": dict(
         prop_file="props/C12.v", proof_files=WIRE_PROOFS + AST_PROOFS, tie_files=["TablesTie.v"],
